@@ -4,10 +4,12 @@
    Proved: what each kind of leaf evaluates to, in terms of the specifier semantics validated against packaging
    (Spec/Specifier.v), string equality / token lists, and normalised-extra membership; and-or structure.
    The link from leaf text to leaf constraint (SingleMarker.__init__) is proved for '==' / '!=' leaves of string variables and of
-   'extra' with plain values (C06_string_leaf_from_text, C06_extra_leaf_from_text); for the other leaves it is tied by correspondence. *)
+   'extra' with plain values (C06_string_leaf_from_text, C06_extra_leaf_from_text) and for comparison leaves of python_version /
+   python_full_version with a literal in normal form (C06_version_leaf_from_text, ..._text_to_truth); for the other leaves it is tied
+   by correspondence. *)
 From Coq Require Import List Bool NArith String.
 From PC Require Import Base.Result Model.Pep440 Spec.Pep440Spec Spec.Specifier Model.VConstraint Model.Generic Model.Marker
-     Proofs.SpecifierAgree Proofs.MarkerProofs Proofs.LeafRebuild.
+     Proofs.SpecifierAgree Proofs.MarkerProofs Proofs.LeafRebuild Proofs.Pep440RoundTrip Proofs.ClauseText Proofs.ConstraintText Proofs.VersionLeafText.
 Import ListNotations.
 Open Scope string_scope.
 
@@ -100,3 +102,37 @@ Proof.
   cbn [validate l_name l_con alias String.eqb Ascii.eqb]. rewrite (leaf_extra E _ o act He). destruct o; try discriminate; reflexivity.
 Qed.
 Print Assumptions C06_extra_leaf_from_text.
+
+(* comparison leaves on python_version / python_full_version from their TEXT: the leaf 'name op V' is built with exactly the range
+   of the clause 'op V', for every literal V in normal form (for python_full_version: V with three or more components or a
+   suffix; shorter literals are padded with '.0' first) *)
+Theorem C06_version_leaf_from_text : forall name op v, printable v = true ->
+  name = "python_version" \/ name = "python_full_version" ->
+  In op [">="; "<="; ">"; "<"; "=="; "!="] ->
+  (Nat.ltb (S (count_dots (to_string v))) 3 && digits_and_dots (to_string v) = false \/ name = "python_version") ->
+  mk_leaf name (op ++ to_string v) false = Ok (mkLeaf name op (to_string v) false (CV (op_result op (reparsed v)))).
+Proof. exact version_leaf_text. Qed.
+Print Assumptions C06_version_leaf_from_text.
+(* ... and from text to truth: with the interpreter's version given in normal form, 'name >= V' holds exactly when PEP 440's
+   '>=' does (likewise for the other operators through C06_version_leaf_le / _eq / _gt / _lt) *)
+Theorem C06_version_leaf_text_to_truth : forall E name l c, printable l = true -> printable c = true -> is_local l = false ->
+  name = "python_version" \/ name = "python_full_version" ->
+  (Nat.ltb (S (count_dots (to_string l))) 3 && digits_and_dots (to_string l) = false \/ name = "python_version") ->
+  lookup name (e_vars E) = Some (to_string c) ->
+  exists lf, mk_leaf name (">=" ++ to_string l) false = Ok lf /\ validate_con name (l_con lf) E = Ok (sp_ge (reparsed l) (reparsed c)).
+Proof.
+  intros E name l c Pl Pc Ll Hn Hpad Hlook. eexists. split.
+  - apply (version_leaf_text name ">=" l Pl Hn); [cbn; auto|exact Hpad].
+  - cbn [l_con]. unfold op_result. cbn [String.eqb Ascii.eqb].
+    apply (leaf_ge E name (reparsed l) (to_string c) (reparsed c)).
+    + destruct Hn as [-> | ->]; reflexivity.
+    + exact Hlook.
+    + assert (PR : negb (String.eqb name "platform_release") = true) by (destruct Hn as [-> | ->]; reflexivity). rewrite PR.
+      change (to_string c) with ("" ++ to_string c). apply (one_clause_text true "" c _ Pc eq_refl). apply clause_bare, Pc.
+    + exact Ll.
+Qed.
+Print Assumptions C06_version_leaf_text_to_truth.
+Example C06_version_leaf_text_example :
+  exists l c, parse "3.8.1" = Some l /\ parse "3.10.12" = Some c /\ printable l = true /\ printable c = true /\
+    to_string l = "3.8.1" /\ Nat.ltb (S (count_dots (to_string l))) 3 && digits_and_dots (to_string l) = false /\ sp_ge (reparsed l) (reparsed c) = true.
+Proof. do 2 eexists. repeat split; vm_compute; reflexivity. Qed.
